@@ -549,9 +549,112 @@ fn finally_fiber(g: &mut Gen, out: &mut Vec<Stmt>) {
     }
 }
 
+/// A `return` out of a try block waits while the finally block runs; in that window the finally
+/// block (a) calls a clean-up function that fails one or more frames down and is caught inside the
+/// finally block, or (b) belongs to a fiber that yields from it while somebody else returns through a
+/// try/finally of their own. The value on its way out must arrive, and nothing after the try
+/// statement may run. (The finally block is only ever entered by the return, never by an exception.)
+fn return_waits_in_finally(g: &mut Gen, out: &mut Vec<Stmt>) {
+    let n = |x: f64| Expr::Num(x);
+    let v = |x: &str| Expr::var(x);
+    let s = |x: &str| Expr::str(x);
+    let ret = |e: Expr| Stmt::new(StmtKind::Return(Some(e)));
+    if g.rd.chance(2, 3) {
+        g.label_pub("return_waits_cleanup_fails_below");
+        let thr = g.fresh_pub("thr");
+        let f = g.fresh_pub("rwf");
+        let ce = g.fresh_pub("ce");
+        // fails `d` frames down: by a throw, or by a failing built-in
+        let fail = if g.rd.flag() { Stmt::new(StmtKind::Throw(s("deep failure"))) } else { Stmt::expr(Expr::invoke(Expr::VecLit(vec![]), "pop", vec![])) };
+        out.push(Stmt::new(StmtKind::Fn(fdef(
+            &thr,
+            FnKind::Function,
+            vec!["d".into()],
+            vec![
+                Stmt::new(StmtKind::If(Expr::bin(BinOp::Le, v("d"), n(0.0)), vec![fail], None)),
+                Stmt::expr(Expr::callv(&thr, vec![Expr::bin(BinOp::Sub, v("d"), n(1.0))])),
+                ret(s("not reached")),
+            ],
+        ))));
+        g.declare_pub(&thr, Kind::Fn(1), false);
+        let depth = g.rd.below(4) as f64;
+        let cleanup = Stmt::new(StmtKind::Try(
+            vec![Stmt::expr(Expr::callv(&thr, vec![n(depth)])), Stmt::print(s("clean-up did not fail"))],
+            Some((ce.clone(), vec![Stmt::print(Expr::VecLit(vec![s("clean-up failed"), Expr::callv("type", vec![v(&ce)])]))])),
+            None,
+        ));
+        let mut fin = vec![Stmt::print(s("finally starts")), cleanup];
+        if g.rd.flag() {
+            fin.push(Stmt::print(s("finally ends")));
+        }
+        let body = vec![
+            Stmt::var("held", Some(Expr::VecLit(vec![v("k"), s("held")]))),
+            Stmt::new(StmtKind::Try(vec![Stmt::print(s("about to return")), ret(Expr::VecLit(vec![v("held"), s("returned")]))], None, Some(fin))),
+            Stmt::print(s("ran past the try statement")),
+            ret(s("no result")),
+        ];
+        out.push(Stmt::new(StmtKind::Fn(fdef(&f, FnKind::Function, vec!["k".into()], body))));
+        g.declare_pub(&f, Kind::Fn(1), false);
+        out.push(Stmt::print(Expr::callv(&f, vec![n(1.0)])));
+        out.push(Stmt::print(Expr::callv(&f, vec![n(2.0)])));
+    } else {
+        g.label_pub("return_waits_fiber_yields_in_finally");
+        let fa = g.fresh_pub("fwa");
+        let other = g.fresh_pub("rwo");
+        let lam = Expr::Lambda(Rc::new(FnDef {
+            name: RefCell::new(g.next_lambda_name()),
+            params: vec![],
+            body: Body::Block(vec![
+                Stmt::new(StmtKind::Try(
+                    vec![ret(s("value of A"))],
+                    None,
+                    Some(vec![Stmt::print(Expr::invoke(v("Fiber"), "yield", vec![s("A is in its finally block")])), Stmt::print(s("A resumed"))]),
+                )),
+                Stmt::print(s("A ran past its try statement")),
+                ret(s("wrong value of A")),
+            ]),
+            kind: FnKind::Lambda,
+        }));
+        out.push(Stmt::var(&fa, Some(Expr::invoke(v("Fiber"), "new", vec![lam]))));
+        g.declare_pub(&fa, Kind::Fiber, false);
+        out.push(Stmt::new(StmtKind::Fn(fdef(
+            &other,
+            FnKind::Function,
+            vec![],
+            vec![
+                Stmt::new(StmtKind::Try(vec![ret(s("value of O"))], None, Some(vec![Stmt::print(s("O finally"))]))),
+                Stmt::print(s("O ran past its try statement")),
+                ret(s("wrong value of O")),
+            ],
+        ))));
+        g.declare_pub(&other, Kind::Fn(0), false);
+        out.push(Stmt::print(Expr::invoke(v(&fa), "call", vec![])));
+        if g.rd.flag() {
+            out.push(Stmt::print(Expr::callv(&other, vec![])));
+        } else {
+            // the other return through finally happens inside a second fiber
+            let fb = g.fresh_pub("fwb");
+            let lam2 = Expr::Lambda(Rc::new(FnDef {
+                name: RefCell::new(g.next_lambda_name()),
+                params: vec![],
+                body: Body::Expr(Box::new(Expr::callv(&other, vec![]))),
+                kind: FnKind::Lambda,
+            }));
+            out.push(Stmt::var(&fb, Some(Expr::invoke(v("Fiber"), "new", vec![lam2]))));
+            out.push(Stmt::print(Expr::invoke(v(&fb), "call", vec![])));
+        }
+        out.push(Stmt::print(Expr::invoke(v(&fa), "call", vec![s("resume A")])));
+        out.push(Stmt::print(Expr::invoke(v(&fa), "has_finished", vec![])));
+    }
+}
+
 pub fn try_stmt(g: &mut Gen, out: &mut Vec<Stmt>) {
     if !g.in_finally_pub() && g.rd.chance(1, 10) {
         finally_fiber(g, out);
+        return;
+    }
+    if !g.in_finally_pub() && g.at_global_pub() && g.rd.chance(1, 10) {
+        return_waits_in_finally(g, out);
         return;
     }
     g.label_pub("try");
